@@ -63,7 +63,10 @@ Lemma tk_swap n1 d1 n2 d2 : tk1 n2 d2 n1 d1 = tk2 n1 d1 n2 d2 /\ tk2 n2 d2 n1 d1
 Proof. unfold tk1, tk2. rewrite (cnum_comm n1 n2), (cden_comm d1 d2). split; reflexivity. Qed.
 
 Lemma common_ok_sym n1 d1 n2 d2 : common_ok n2 d2 n1 d1 = common_ok n1 d1 n2 d2.
-Proof. unfold common_ok. rewrite (cden_comm d1 d2). apply Bool.eq_iff_eq_true. lia. Qed.
+Proof.
+  unfold common_ok. rewrite (cden_comm d1 d2), (cnum_comm n1 n2).
+  rewrite <- !Bool.andb_assoc. f_equal. apply Bool.andb_comm.
+Qed.
 
 Lemma both_ok_sym w1 n1 d1 w2 n2 d2 c1 c2 :
   both_ok w2 n2 d2 w1 n1 d1 c2 c1 = both_ok w1 n1 d1 w2 n2 d2 c1 c2.
@@ -239,26 +242,40 @@ Section Cmp.
 End Cmp.
 
 (** * the converting constructor in general *)
-Lemma convertible_m_spec w1 n1 d1 w2 n2 d2 :
-  period_ok n1 d1 = true -> period_ok n2 d2 = true -> n1 * d2 <= max64 -> d1 * n2 <= max64 ->
-  convertible_m (Dur w1 n1 d1) (Dur w2 n2 d2) = Val ((n1 * d2) mod (d1 * n2) =? 0).
+(* whole-number factor: the reduced denominator is 1 exactly when d1*n2 divides n1*d2, and then
+   the reduced numerator is the quotient *)
+Lemma factor_integral n1 d1 n2 d2 : 0 < n1 * d2 -> 0 < d1 * n2 ->
+  ((factor_num n1 d1 n2 d2 <=? max64) && (factor_den n1 d1 n2 d2 =? 1))
+  = (((n1 * d2) mod (d1 * n2) =? 0) && ((n1 * d2) / (d1 * n2) <=? max64)).
 Proof.
-  intros Hp1 Hp2 Ha Hb.
+  intros Ha0 Hb0. unfold factor_num, factor_den.
+  destruct (reduce_facts _ _ Ha0 Hb0) as (Hg & Ea & Eb & Hcn & Hcd).
+  set (g := Z.gcd (n1 * d2) (d1 * n2)) in *.
+  destruct (d1 * n2 / g =? 1) eqn:E1.
+  - apply Z.eqb_eq in E1. rewrite E1, Z.mul_1_l in Eb.
+    rewrite Bool.andb_true_r. rewrite <- Eb in *.
+    assert (Em : (n1 * d2) mod (d1 * n2) = 0) by (rewrite Ea; apply Z.mod_mul; lia).
+    rewrite Em. reflexivity.
+  - rewrite Bool.andb_false_r. symmetry. apply Bool.andb_false_iff. left.
+    apply Z.eqb_neq. intros Em. apply Z.mod_divide in Em; [|lia].
+    assert (EG : g = d1 * n2).
+    { unfold g. rewrite Z.gcd_comm. apply Z.divide_gcd_iff; [lia|exact Em]. }
+    rewrite EG in E1. rewrite Z.div_same in E1 by lia. discriminate.
+Qed.
+
+Lemma convertible_m_spec w1 n1 d1 w2 n2 d2 :
+  period_ok n1 d1 = true -> period_ok n2 d2 = true ->
+  convertible_m (Dur w1 n1 d1) (Dur w2 n2 d2)
+  = Val (((n1 * d2) mod (d1 * n2) =? 0) && ((n1 * d2) / (d1 * n2) <=? max64)).
+Proof.
+  intros Hp1 Hp2.
   pose proof (proj1 (period_ok_iff _ _) Hp1) as (Hn1 & Hd1 & Hg1).
   pose proof (proj1 (period_ok_iff _ _) Hp2) as (Hn2 & Hd2 & Hg2).
   unfold convertible_m. destruct (same_ty (Dur w1 n1 d1) (Dur w2 n2 d2)) eqn:Es.
   - apply same_ty_iff in Es. injection Es as -> -> ->.
-    replace (n2 * d2) with (1 * (d2 * n2)) by ring. rewrite Z.mod_mul by nia. reflexivity.
-  - cbn [pn pd]. rewrite ratio_divide_m_spec by assumption. cbn [bind snd]. f_equal.
-    assert (Ha0 : 0 < n1 * d2) by nia. assert (Hb0 : 0 < d1 * n2) by nia.
-    destruct (reduce_facts _ _ Ha0 Hb0) as (Hg & Ea & Eb & Hcn & Hcd).
-    set (g := Z.gcd (n1 * d2) (d1 * n2)) in *.
-    apply Bool.eq_iff_eq_true. rewrite !Z.eqb_eq. split.
-    + intros E1. rewrite E1 in Eb. rewrite Ea, Eb. rewrite Z.mul_1_l. apply Z.mod_mul. lia.
-    + intros Em. apply Z.mod_divide in Em; [|lia].
-      assert (EG : g = d1 * n2).
-      { unfold g. rewrite Z.gcd_comm. apply Z.divide_gcd_iff; [lia|exact Em]. }
-      rewrite EG. apply Z.div_same. lia.
+    replace (n2 * d2) with (1 * (d2 * n2)) by ring. rewrite Z.mod_mul, Z.div_mul by nia. reflexivity.
+  - rewrite period_quotient_integral_m_spec by assumption. f_equal.
+    apply factor_integral; nia.
 Qed.
 
 Lemma conv_m_spec w1 n1 d1 w2 n2 d2 c :
@@ -286,12 +303,21 @@ Proof.
   unfold conv_m. cbv zeta. destruct (same_ty (Dur w1 n1 d1) (Dur w2 n2 d2)) eqn:Es.
   - apply same_ty_iff in Es. injection Es as -> -> ->. f_equal.
     unfold cast_spec. replace (c * n2 * d2) with (c * (d2 * n2)) by ring. rewrite Z.quot_mul by lia. reflexivity.
-  - cbn [pn pd rw]. rewrite ratio_divide_m_spec by (try assumption; unfold max64; lia).
-    cbn [bind fst snd].
+  - cbn [pn pd rw].
+    rewrite period_quotient_integral_m_spec by assumption.
+    rewrite factor_integral by assumption.
     apply Z.mod_divide in Hex; [|lia].
     assert (EG : Z.gcd (n1 * d2) (d1 * n2) = d1 * n2).
     { rewrite Z.gcd_comm. apply Z.divide_gcd_iff; [lia|exact Hex]. }
-    rewrite (cast_reduced n1 d1 n2 d2 c Ha0 Hb0) in *. rewrite EG in *.
-    rewrite Z.div_same in * by lia. rewrite Z.quot_1_r in *. cbn [Z.eqb Pos.eqb negb].
-    rewrite ck64_ok by assumption. cbn [bind]. rewrite wrap_rep_id by assumption. reflexivity.
+    assert (Efn : factor_num n1 d1 n2 d2 = n1 * d2 / (d1 * n2)) by (unfold factor_num; rewrite EG; reflexivity).
+    assert (Efd : factor_den n1 d1 n2 d2 = 1) by (unfold factor_den; rewrite EG; apply Z.div_same; lia).
+    assert (Em : (n1 * d2) mod (d1 * n2) = 0) by (apply Z.mod_divide; [lia|exact Hex]).
+    rewrite Em. rewrite <- Efn. replace (factor_num n1 d1 n2 d2 <=? max64) with true by (symmetry; apply Z.leb_le; exact Ha).
+    cbn [bind Z.eqb andb negb].
+    rewrite ratio_divide_m_spec by (try assumption; unfold max64; lia).
+    cbn [bind fst snd].
+    rewrite (cast_reduced n1 d1 n2 d2 c Ha0 Hb0) in *. rewrite Efd in *.
+    rewrite Z.quot_1_r in *.
+    rewrite ck64_ok by assumption. cbn [bind]. rewrite div_rep_pos by lia. cbn [bind].
+    rewrite Z.quot_1_r. rewrite wrap_rep_id by assumption. reflexivity.
 Qed.
